@@ -462,7 +462,7 @@ def run(res, proof):
         proof.problem('driver', str(e))
     cu.source_derived_stream(res, proof, 'complex_utils.split.source-derived', ops, impl)
     from .pycomplex2_stream import source_derived_pycomplex2
-    source_derived_pycomplex2(res, proof)      # ComplexS.split / is_domainlevel_complement as translated from the working tree
+    core.run_stream(source_derived_pycomplex2, res, proof)      # ComplexS.split / is_domainlevel_complement as translated from the working tree
     for op in ops[::max(1, len(ops) // 8)]:
         res.sample('\t'.join(op))
 
